@@ -272,14 +272,20 @@ func (b *builder) build(n *node) px.Value {
 		if len(n.kids) > len(attrs) {
 			bad("too many attributes")
 		}
-		args := make([]px.Value, len(n.kids))
+		// always through the named-argument constructor: a single positional argument that happens to be a hash matching
+		// the init struct would be taken for the init hash (constructor ambiguity, not this property's business)
+		es := make([]*types.HashEntry, len(n.kids))
 		for i, k := range n.kids {
 			if attrs[i].Name() != n.names[i] {
 				bad("attribute %s out of order", n.names[i])
 			}
-			args[i] = b.build(k)
+			es[i] = types.WrapHashEntry2(n.names[i], b.build(k))
 		}
-		v = px.New(b.c, t, args...)
+		if len(es) == 0 {
+			v = px.New(b.c, t)
+		} else {
+			v = px.New(b.c, t, types.WrapHash(es))
+		}
 	case "tdef":
 		v = b.c.ParseType(n.s)
 	default:
@@ -707,12 +713,12 @@ func normalize(v px.Value) px.Value {
 		return v
 	case px.PuppetObject:
 		if ot, ok := t.PType().(px.ObjectType); ok {
-			attrs := ot.AttributesInfo().Attributes()
-			args := make([]px.Value, len(attrs))
-			for i, a := range attrs {
-				args[i] = normalize(a.Get(t))
+			es := []*types.HashEntry{}
+			t.InitHash().EachPair(func(k, e px.Value) { es = append(es, types.WrapHashEntry(k, normalize(e))) })
+			if len(es) == 0 {
+				return v
 			}
-			return px.New(px.CurrentContext(), ot, args...)
+			return px.New(px.CurrentContext(), ot, types.WrapHash(es))
 		}
 	}
 	return v
